@@ -92,7 +92,7 @@ Definition chars_ok (u : uri) : Prop :=
   /\ opt_ok (text_ok is_qf_char) (fragment u).
 
 (* (b): the host fields.  Without a host text there is no host data.  With one, the path is not
-   flagged absolute, and the host is exactly one of: IPv6 literal (bracketed, not starting with "v";
+   flagged absolute, and the host is exactly one of: IPv6 literal (bracketed, non-empty, not starting with "v";
    the 16 bytes are [ip6_of] of the text), IPvFuture literal
    (bracketed, starting with "v"; hostData.ipFuture is the same range as hostText), or a
    non-bracketed host, whose IPv4 octets are [ip4_of] of the text (None: a registered name). *)
